@@ -482,6 +482,9 @@ def check_decay(ctx, case):
         'overflow_exponent_bound': max([To * LN2 / th + max(0.0, math.log(target / a)) for a, th in prods if a > 0]
                                        or [0]),
         'mode': tm['mode'], 'nproducts': len(prods), 'A0_minus_target': A0 - target,
+        # a product whose activity at the smallest requested rest time is below the smallest normal double (stored
+        # as a denormal or as 0) although it is part of the activity at removal: the table has lost it
+        'underflow_product': any(a > 0 and To > 0 and a * 2.0 ** (-To / th) < 2.2250738585072014e-308 for a, th in prods),
     }
     off = case.get('inject_offset')
     if off:
@@ -727,6 +730,13 @@ def classify(rec):
             if 'log(target/Ia)' in (d.get('line') or '') and d.get('has_zero_product'):
                 return 'c15.zero-activity-product'
         return None
+    if kind in ('zero-when-above', 'inaccurate') and not d.get('postcondition') and d.get('underflow_product') \
+            and To and sib == 'accepted' and (d.get('overflow_ratio') or 0) > 650:
+        # the sibling request (rest_times=[0]) is answered correctly; with this list the activity table holds a
+        # short-lived product only as a denormal / zero at its smallest rest time, so the activity at removal that
+        # decay_time reconstructs from the table misses it (the same loss that, a few half-lives later, makes the
+        # reconstruction overflow: c15.rest-time-overflow)
+        return 'c15.rest-time-underflow'
     if kind == 'zero-when-above' and not d.get('postcondition'):
         # f(0) < target with f already holding "- target": zero for every target in (A0/2, A0)
         if x is not None and 0.5 < x < 1:
